@@ -364,6 +364,42 @@ def gen_cases(rng, tier):
       out.append({'kind': 'dyk', 'a': a, 'b': b, 'maxiter': mi, 'p': p})
     else:
       out.append({'kind': 'region', 'r': ['inter', a, b], 'maxiter': mi, 'p': p, 'pk': 'random'})
+  # (2b) stratified: intersections on which the FIRST shortcut fails and the SECOND applies (P_a(p) outside b, P_b(p) inside a),
+  # and such that projecting P_a(p) onto b would also land in a (so that a wrong argument in the second branch is visible)
+  def ref_proj(r, x):
+    if r[0] == 'box':
+      return [min(max(v, lo), hi) for v, (lo, hi) in zip(x, r[1])]
+    nv = r[1]
+    nn = dotF(nv, nv)
+    if r[0] == 'half':
+      d = dotF(nv, x)
+      if (r[3] > 0 and d < r[2]) or (r[3] < 0 and d > r[2]):
+        return [v + a * (r[2] - d) / nn for v, a in zip(x, nv)]
+      return list(x)
+    d = dotF(nv, x)
+    t = r[2] if d < r[2] else (r[3] if d > r[3] else d)
+    return [v + a * (t - d) / nn for v, a in zip(x, nv)]
+
+  def ref_in(r, x):
+    return ref_proj(r, x) == list(x)
+  got, tries = 0, 0
+  while got < 12 * k and tries < 4000:
+    tries += 1
+    n = 2 + rng.randrange(2)
+    a = gen_box(rng, n, zw=None) if rng.random() < 0.6 else gen_vec_region(rng, n, kinds=('slice', 'half'), friendly=True)
+    b = gen_vec_region(rng, n, kinds=('half', 'slice'), friendly=True)
+    p = [dy(rng, -6, 6, 2) for _ in range(n)]
+    pa = ref_proj(a, p)
+    if ref_in(b, pa):
+      continue
+    pb = ref_proj(b, p)
+    if not ref_in(a, pb):
+      continue
+    pba = ref_proj(b, pa)
+    if not ref_in(a, pba) or pba == pb:
+      continue
+    out.append({'kind': 'region', 'r': ['inter', a, b], 'maxiter': 50, 'p': p, 'pk': 'second-shortcut'})
+    got += 1
   # (3) lists of regions
   for i in range(40 * k):
     l = 1 + rng.randrange(5)
